@@ -212,6 +212,7 @@ func init() {
 		checkHeightInBatch(c, ai)
 		c16ResumeSafe(c, "prune-resume", ci, rs)
 		c05ErrorNotDropped(c)
+		c15PebbleBatch(c) // shared with C15: the Pebble batch is one atomic unit (committed only by Write) with its own read view
 	})
 }
 
